@@ -6,6 +6,8 @@ spec keys
   stream     'ap' | 'lf'
   n          number of saved AP (or LF) channels, 1..384
   n_acq      number of acquired channels (imro entries), >= n          (prefix subset when n < n_acq)
+  first_chan original channel number of the first saved channel (default 0). > 0 gives a NON-prefix subset
+             first_chan .. first_chan+n-1 (snsSaveChanSubset says so; maps list the saved channels, imro all acquired)
   pattern    site selection pattern: 'dense' | 'random' | 'banks' | 'reversed' | 'interleaved'
   site_seed  integer seed of the selection
   shanks     list of shanks in use (NP2.4), e.g. [0, 2]
@@ -201,12 +203,14 @@ def build_lines(spec):
         L.append(f"snsApLfSy={n},0,{nsync}")
     else:
         L.append(f"snsApLfSy=0,{n},{nsync}")
+    k0 = spec.get("first_chan", 0)
+    rng_txt = f"{k0}:{k0 + n - 1}" if n > 1 else f"{k0}"
     if nsync and np2 and n == n_acq:
         sub = f"0:{n}"  # what SpikeGLX writes when every channel of an NP2 probe is saved (sync is channel n_acq)
     elif nsync:
-        sub = f"0:{n - 1},{2 * n_acq if not np2 else n_acq}" if n > 1 else f"0,{2 * n_acq if not np2 else n_acq}"
+        sub = f"{rng_txt},{2 * n_acq if not np2 else n_acq}"
     else:
-        sub = f"0:{n - 1}" if n > 1 else "0"
+        sub = rng_txt
     L.append(f"snsSaveChanSubset={sub}")
     L.append("syncImInputSlot=2")
     L.append("trigMode=Immediate")
@@ -220,9 +224,9 @@ def build_lines(spec):
     # --- tables
     if np2:
         if gen == "NP2.4":
-            ent = "".join(f"({i} {s} 0 0 {r * 2 + c})" for i, (s, c, r) in enumerate(_pad_sites(sites, n_acq, gen)))
+            ent = "".join(f"({i} {s} 0 0 {r * 2 + c})" for i, (s, c, r) in enumerate(_pad_sites(sites, n_acq, gen, spec.get('first_chan', 0))))
         else:
-            ent = "".join(f"({i} 1 0 {r * 2 + c})" for i, (s, c, r) in enumerate(_pad_sites(sites, n_acq, gen)))
+            ent = "".join(f"({i} 1 0 {r * 2 + c})" for i, (s, c, r) in enumerate(_pad_sites(sites, n_acq, gen, spec.get('first_chan', 0))))
         L.append(f"{t}imroTbl=({spec['prb_type']},{n_acq}){ent}")
     else:
         g = gains_of(spec)
@@ -231,7 +235,7 @@ def build_lines(spec):
         ent = "".join(f"({i} 0 0 {a} {b}{tail})" for i, (a, b) in enumerate(g))
         head = f"(641251510,3,{n_acq})" if gen == "3A" else f"({spec.get('prb_type', 0)},{n_acq})"
         L.append(f"{t}imroTbl={head}{ent}")
-    cm = "".join(f"(AP{i};{i}:{i})" for i in range(n)) + (f"(SY0;{2 * n_acq}:{n})" if nsync else "")
+    cm = "".join(f"(AP{k0 + i};{k0 + i}:{i})" for i in range(n)) + (f"(SY0;{2 * n_acq}:{n})" if nsync else "")
     L.append(f"{t}snsChanMap=({n_acq},{0 if np2 else n_acq},1){cm}")
     if spec.get("enc", "shank") == "shank":
         hdr = {"3A": "(1,2,480)", "3B1": "(1,2,480)", "3B2": "(1,2,480)", "NP2.1": "(1,2,640)",
@@ -247,12 +251,12 @@ def build_lines(spec):
     return L
 
 
-def _pad_sites(sites, n_acq, gen):
+def _pad_sites(sites, n_acq, gen, k0=0):
     if len(sites) >= n_acq:
         return sites[:n_acq]
     used = set(sites)
     extra = [x for x in grid(gen) if x not in used][: n_acq - len(sites)]
-    return list(sites) + extra
+    return extra[:k0] + list(sites) + extra[k0:]
 
 
 def _build_nidq(spec):
@@ -293,7 +297,7 @@ def n_channels(spec):
 
 def st_spec(gens=("3A", "3B1", "3B2", "NP2.1", "NP2.4", "NPultra"), n_range=(1, 384), allow_lf=True,
             allow_nosync=False, patterns=("dense", "random", "banks", "reversed", "interleaved"),
-            encs=("shank", "geom"), ns_range=(1, 400), uniform_gain_ok=True, n_choices=None):
+            encs=("shank", "geom"), ns_range=(1, 400), uniform_gain_ok=True, n_choices=None, allow_offset=False):
     from hypothesis import strategies as st
 
     @st.composite
@@ -312,6 +316,8 @@ def st_spec(gens=("3A", "3B1", "3B2", "NP2.1", "NP2.4", "NPultra"), n_range=(1, 
         spec["n"] = n
         acq_opts = [384] if n > 276 else [384, 276] if gen == "3A" else [384]
         spec["n_acq"] = draw(st.sampled_from(acq_opts + ([n] if n not in acq_opts else [])))
+        if allow_offset and spec["n_acq"] > n and draw(st.integers(0, 3)) == 0:
+            spec["first_chan"] = draw(st.integers(1, spec["n_acq"] - n))
         pats = list(patterns)
         if gen == "NP2.4":
             k = draw(st.integers(1, 4))
